@@ -35,7 +35,7 @@ def json_problem(text):
         return '%s: ...%s...' % (e, t2[max(0, e.pos - 40):e.pos + 20] if hasattr(e, 'pos') else '')
 
 
-def build(ctx, S, name, mask, fl):
+def build(ctx, S, name, mask, fl, fl_assert=None):
     d = os.path.join(ctx.bdir, name); os.makedirs(d, exist_ok=True)
     fbs = os.path.join(d, name + '.fbs'); open(fbs, 'w').write(c01gen.render_fbs(S))
     rc, out = ctx.gen(fbs, d, opts=('-a', '--json'))
@@ -58,6 +58,9 @@ def build(ctx, S, name, mask, fl):
     cpath = os.path.join(d, 'main.c'); open(cpath, 'w').write(src)
     exe = os.path.join(d, 'vd')
     ctx.cc([cpath] + fl, exe, san=True, defs=['-DNDEBUG'], incs=['-I' + d, '-I' + os.path.join(lib.ROOT, 'harness')])
+    if fl_assert is not None:
+        # the same reader / verifier / printer with assertions enabled (flatcc's default build)
+        ctx.cc([cpath] + fl_assert, exe + '_assert', san=True, defs=[], incs=['-I' + d, '-I' + os.path.join(lib.ROOT, 'harness')])
     return (exe, dc), None
 
 
@@ -71,13 +74,14 @@ def run(ctx):
         if not ctx.check_theorems(prop_module='Properties_C09b'):
             ctx.broken_obligation('Properties_C09b.vo', getattr(ctx, 'broken', {}))
     fl = ctx.rt_objs(san=True, defs=['-DNDEBUG'])
+    fl_assert = ctx.rt_objs(san=True, defs=[])
     npairs = 14 if ctx.thorough else 4
     nvals = 40 if ctx.thorough else 12
     for pi in range(npairs):
         r = random.Random(5000 + pi) if pi < npairs // 2 else rng
         A, B = c01gen.evolve_pair(r, nstructs=r.randint(1, 3), ntables=r.randint(2, 4), nunions=r.randint(1, 2), nenums=r.randint(1, 3))
         na, nb = 'a%d' % pi, 'b%d' % pi
-        ra, ea = build(ctx, A, na, None, fl)
+        ra, ea = build(ctx, A, na, None, fl, fl_assert)
         rb, eb = build(ctx, B, nb, A, fl)
         rep0 = {'schema_A': c01gen.render_fbs(A), 'schema_B': c01gen.render_fbs(B)}
         if ra is None or rb is None:
@@ -110,9 +114,32 @@ def run(ctx):
                 val = fbenc.gen_value(B, rootname, r, maxdepth=r.choice([1, 2, 3]))
                 buf = enc.finish_table_root(rootname, val, r)
                 lines.append('vd %s %s' % (rootname, buf.hex()))
+        # deep chains through the root's self reference: depths around the documented nesting limit (verifier and printer both 100)
+        deep = set()
+        root0 = B['tables'][0]['name']
+        if root0 in roots:
+            for depth in ([90, 98, 99, 100, 101, 127, 128, 150] if ctx.thorough else [98, 99, 100, 101, 127]):
+                val = fbenc.gen_value(B, root0, r, depth=0, maxdepth=0, p_present=0.0)        # required fields only
+                val.pop('selfref', None)
+                for _ in range(depth):
+                    outer = fbenc.gen_value(B, root0, r, depth=0, maxdepth=0, p_present=0.0); outer['selfref'] = val; val = outer
+                buf = fbenc.Enc(B).finish_table_root(root0, val, r)
+                lines.append('vd %s %s' % (root0, buf.hex())); deep.add(lines[-1])
         oa = lib.run_harness_resilient(HA, lines); ob = lib.run_harness_resilient(HB, lines)
+        # the old code once more with assertions enabled: must behave the same (an unknown union member is NONE, not an abort)
+        HAa = lib.Harness(exa + '_assert')
+        oaa = lib.run_harness_resilient(HAa, lines)
+        for l, a, aa in zip(lines, oa, oaa):
+            if split_json(a)[0] != split_json(aa)[0] and not (l in deep and not a.startswith('V 0')):
+                ctx.violation('old-code-differs-with-assertions', 'old reader/verifier/printer with assertions enabled behaves differently on a buffer of the extended schema: %s (NDEBUG build: %s)'
+                              % (aa[:300], split_json(a)[0][:120]), dict(rep0, harness_line=l, old_code_ndebug=a[:2000], old_code_assert=aa[:2000]))
         for l, a, b in zip(lines, oa, ob):
-            ctx.count(l, klass='new_buffer_old_code')
+            ctx.count(l, klass='new_buffer_old_code' if l not in deep else 'deep_chain')
+            if l in deep and (b.startswith('V 3') or a.startswith('V 3')):
+                # beyond the documented nesting limit: rejection with max_nesting_level_reached by either version is the documented outcome
+                if b.startswith('V 3') != a.startswith('V 3'):
+                    ctx.violation('nesting-limit-differs', 'old and new verifier disagree on a chain at the nesting limit: old %s new %s' % (a[:40], b[:40]), dict(rep0, harness_line=l))
+                continue
             a, ja = split_json(a); b, jb = split_json(b)
             rep = dict(rep0, harness_line=l, old_code=a[:2000], new_code=b[:2000])
             if ja is not None and json_problem(ja):
